@@ -1,7 +1,7 @@
 """C15 - events run their handlers in order, isolated, on shared globals."""
 import json
 
-from . import docex, machine
+from . import docex, machine, scopetrace
 from .common import HarnessError
 
 replay_one = machine.replay_one
@@ -37,3 +37,6 @@ def run(chk):
     cases += docex.samples(chk, chk.tier)
     machine.replay_family(chk, cases)
     chk.extra["handler_vs_procedure_pairs_equal_in_model"] = len(pairs)
+    # direction B: every handler of these programs run several times, scope and variable events against ScopeStack.tla
+    # (a handler starts in a scope of its own, sees the globals and nothing else, leaves nothing behind)
+    scopetrace.run(chk, [c for c in cases if c.get("class", "").startswith("on")], model=False, corpus=40 if chk.tier == "quick" else 400)
